@@ -1,41 +1,72 @@
 import CanVerif.Gen.RunnerProg
+import CanVerif.Lemmas.Prog
 import CanVerif.Props.C13
 /-!
-# C13 (code tie)  The regions extracted from pkg/canrunner/run.go satisfy the lock discipline
+# C13 (code tie)  The goroutine bodies translated from pkg/canrunner obey the lock discipline
 
-`CanVerif.Gen.RunnerProg` is regenerated from `/repo`'s working tree by harness/cmd/extract on every run; the
-statements below are re-checked by `decide` against what the code says now.  A change that moves a state access out of
-its critical section, calls a hook or transmits while holding the lock, or returns without unlocking makes
-`C13_code` fail; the check then replays the offending schedule on the real functions (bin/props.py C13).
+`CanVerif.Gen.RunnerProg` is regenerated from `/repo`'s working tree by harness/cmd/extract on every run (go/types,
+calls into the package inlined); the statements below are re-checked by `decide` against what the code says now.
+`lockSafe p` runs the abstract interpreter `chk` (Model/Prog.lean, sound by `chk_sound`) with the lock monitor: on every
+path through the goroutine body, state accesses happen while the lock is held, hook calls, transmissions and returns
+while it is not, lock/unlock alternate.  `frameAfterHook` runs it with the monitor that accepts a transmission only
+when the frame was marshalled after the latest hook call.  A change that moves a state access out of its critical
+section, calls a hook or transmits while holding the lock, returns without unlocking, or marshals the frame before the
+hook makes these fail; the check then looks for the offending schedule on the real functions (bin/props.py C13).
 -/
 namespace CanVerif
 
-/-- position of the first atom satisfying `p` -/
-def firstIdx (p : Atom → Bool) (l : List Atom) : Option Nat := l.findIdx? p
-
-/-- in `transmit`: the before-transmit hook is called, then (in a later critical section) the frame is marshalled,
-then it is transmitted -/
-def hookThenFrameThenTx (l : List Atom) : Bool :=
-  match firstIdx (· == .hook) l, firstIdx (· == .access "Frame") l, firstIdx (· == .tx) l with
-  | some h, some f, some t => h < f && f < t
-  | _, _, _ => false
-
-/-- every region of the runner obeys the discipline of `C13_sound` -/
+/-- every goroutine body of the runner obeys the lock discipline -/
 theorem C13_code :
-    wellLocked Gen.receiverBody = true ∧ wellLocked Gen.transmitBody = true ∧ wellLocked Gen.setCyclicBody = true := by
-  decide
+    lockSafe Gen.receiverThread = true ∧ lockSafe Gen.transmitterThread = true ∧ lockSafe Gen.runThread = true ∧
+    Gen.spawned.all lockSafe = true := by
+  decide +kernel
 
-/-- the accesses the property lists all occur in the regions (so `C13_code` is not vacuous): hooks and the cyclic
-flag are read, times are set, frames are marshalled and unmarshalled -/
+/-- the accesses the property lists all occur in the translated bodies (so `C13_code` is not vacuous): hooks and the
+cyclic flag are read, times are set, frames are marshalled and unmarshalled, hooks are called, frames transmitted -/
 theorem C13_code_accesses :
-    Gen.receiverBody.contains (.access "AfterReceiveHook") = true ∧ Gen.receiverBody.contains (.access "SetReceiveTime") = true ∧
-    Gen.receiverBody.contains (.access "UnmarshalFrame") = true ∧ Gen.receiverBody.contains .hook = true ∧
-    Gen.transmitBody.contains (.access "BeforeTransmitHook") = true ∧ Gen.transmitBody.contains (.access "SetTransmitTime") = true ∧
-    Gen.transmitBody.contains (.access "Frame") = true ∧ Gen.transmitBody.contains .hook = true ∧ Gen.transmitBody.contains .tx = true ∧
-    Gen.setCyclicBody.contains (.access "IsCyclicTransmissionEnabled") = true := by
-  decide
+    Gen.receiverThread.atoms.contains (.access "AfterReceiveHook") = true ∧
+    Gen.receiverThread.atoms.contains (.access "SetReceiveTime") = true ∧
+    Gen.receiverThread.atoms.contains (.access "UnmarshalFrame") = true ∧ Gen.receiverThread.atoms.contains .hook = true ∧
+    Gen.transmitterThread.atoms.contains (.access "BeforeTransmitHook") = true ∧
+    Gen.transmitterThread.atoms.contains (.access "SetTransmitTime") = true ∧
+    Gen.transmitterThread.atoms.contains (.access "Frame") = true ∧ Gen.transmitterThread.atoms.contains .hook = true ∧
+    Gen.transmitterThread.atoms.contains .tx = true ∧
+    Gen.transmitterThread.atoms.contains (.access "IsCyclicTransmissionEnabled") = true ∧
+    Gen.receiverThread.atoms.contains .lock = true ∧ Gen.transmitterThread.atoms.contains .lock = true := by
+  decide +kernel
 
-/-- a transmitted frame reflects the state left by its before-transmit hook -/
-theorem C13_frame_after_hook : hookThenFrameThenTx Gen.transmitBody = true := by decide
+/-- a transmitted frame reflects the state left by its before-transmit hook: on every path, the frame is marshalled
+after the latest hook call and before the transmission -/
+theorem C13_frame_after_hook : frameAfterHook Gen.transmitterThread = true := by decide +kernel
+
+/-- What `lockSafe` means (soundness of the abstract interpreter instantiated): for every partial or complete
+execution of the goroutine body, the lock monitor accepts its trace from "not holding the lock", and a complete
+execution ends not holding it. -/
+theorem C13_lockSafe_sound (p : Prog) (h : lockSafe p = true) (t : List Atom) (e : Exit) (hr : Run (.call p) t e) :
+    ∃ held, foldM' lockMon false t = some held ∧ (e = .fall → held = false) := by
+  unfold lockSafe at h
+  cases hc : chk lockMon 4 (.call p) [false] with
+  | none => rw [hc] at h; cases h
+  | some o =>
+    rw [hc] at h
+    obtain ⟨s', f, a1, _⟩ := chk_sound lockMon 4 (.call p) [false] o hc false (List.mem_singleton.mpr rfl) t e hr
+    refine ⟨s', f, fun he => ?_⟩
+    have := (subset_spec o.fall [false]).mp h s' (a1 he)
+    simpa using this
+
+/-- the trace of a complete execution is a well-locked region in the sense of `C13_sound` -/
+theorem foldM_lock_wellLocked (t : List Atom) (h : Bool) (hf : foldM' lockMon h t = some false) :
+    wellLockedFrom h t = true := by
+  induction t generalizing h with
+  | nil => simp only [foldM', Option.some.injEq] at hf; subst hf; rfl
+  | cons a r ih =>
+    unfold foldM' at hf
+    cases a <;> cases h <;> simp [lockMon] at hf <;> simp [wellLockedFrom] <;> exact ih _ hf
+
+theorem C13_complete_runs_wellLocked (p : Prog) (h : lockSafe p = true) (t : List Atom) (hr : Run (.call p) t .fall) :
+    wellLocked t = true := by
+  obtain ⟨held, f, hh⟩ := C13_lockSafe_sound p h t .fall hr
+  rw [hh rfl] at f
+  exact foldM_lock_wellLocked t false f
 
 end CanVerif
